@@ -181,21 +181,26 @@ impl SrtpSession {
     pub fn unprotect_rtp(&mut self, packet: SrtpPacket) -> SrtpResult<RtpPacket> {
         let ssrc = packet.header.ssrc;
         self.evict_stale_rx(ssrc);
-        let ctx = match self.rx_contexts.entry(ssrc) {
-            Entry::Occupied(e) => e.into_mut(),
-            Entry::Vacant(e) => e.insert(SrtpContext::new(
-                ssrc,
-                self.profile,
-                self.rx_keying.clone(),
-                SrtpDirection::Receiver,
-            )?),
-        };
-        ctx.last_used = std::time::Instant::now();
+        let now = std::time::Instant::now();
         #[cfg(rustrtc_verif)]
-        {
-            ctx.last_used = crate::verif_hooks::std_now();
+        let now = crate::verif_hooks::std_now();
+        if let Some(ctx) = self.rx_contexts.get_mut(&ssrc) {
+            ctx.last_used = now;
+            return ctx.unprotect(packet);
         }
-        ctx.unprotect(packet)
+        // First packet of this SSRC: keep the context only if the packet
+        // authenticates, so unauthenticated traffic can neither grow the table
+        // nor arm the stale-context eviction of genuine streams.
+        let mut ctx = SrtpContext::new(
+            ssrc,
+            self.profile,
+            self.rx_keying.clone(),
+            SrtpDirection::Receiver,
+        )?;
+        ctx.last_used = now;
+        let out = ctx.unprotect(packet)?;
+        self.rx_contexts.insert(ssrc, ctx);
+        Ok(out)
     }
 
     pub fn protect_rtcp(&mut self, packet: &mut Vec<u8>) -> SrtpResult<()> {
@@ -230,21 +235,23 @@ impl SrtpSession {
         let ssrc = u32::from_be_bytes([packet[4], packet[5], packet[6], packet[7]]);
 
         self.evict_stale_rx(ssrc);
-        let ctx = match self.rx_contexts.entry(ssrc) {
-            Entry::Occupied(e) => e.into_mut(),
-            Entry::Vacant(e) => e.insert(SrtpContext::new(
-                ssrc,
-                self.profile,
-                self.rx_keying.clone(),
-                SrtpDirection::Receiver,
-            )?),
-        };
-        ctx.last_used = std::time::Instant::now();
+        let now = std::time::Instant::now();
         #[cfg(rustrtc_verif)]
-        {
-            ctx.last_used = crate::verif_hooks::std_now();
+        let now = crate::verif_hooks::std_now();
+        if let Some(ctx) = self.rx_contexts.get_mut(&ssrc) {
+            ctx.last_used = now;
+            return ctx.unprotect_rtcp(packet);
         }
-        ctx.unprotect_rtcp(packet)
+        let mut ctx = SrtpContext::new(
+            ssrc,
+            self.profile,
+            self.rx_keying.clone(),
+            SrtpDirection::Receiver,
+        )?;
+        ctx.last_used = now;
+        ctx.unprotect_rtcp(packet)?;
+        self.rx_contexts.insert(ssrc, ctx);
+        Ok(())
     }
 
     /// Evict stale transmit contexts once the map crosses the high-water mark.
